@@ -16,6 +16,7 @@ import (
 	"github.com/openconfig/ygot/ygot"
 
 	aftpb "github.com/openconfig/gribi/v1/proto/gribi_aft"
+	enums "github.com/openconfig/gribi/v1/proto/gribi_aft/enums"
 	wpb "github.com/openconfig/ygot/proto/ywrapper"
 )
 
@@ -47,7 +48,51 @@ func vfMeasureCalib() map[string]bool {
 	p, err := ConcreteNextHopProto(&aft.Afts_NextHop{Index: &idx, PopTopLabel: &tr})
 	return map[string]bool{
 		"concrete-nh-emits-pop-top": err == nil && p.GetNextHop().GetPopTopLabel().GetValue(),
+		// does candidateRIB panic (instead of returning an error) for an enum number its type does not define?
+		"undefined-enum-panics": vfUndefinedEnumPanics(),
 	}
+}
+
+// vfUndefinedEnumPanics: native measurement for the calibration fact of the same name
+// (several undefined numbers in every modelled enum field).
+func vfUndefinedEnumPanics() (panics bool) {
+	for _, v := range []int32{-1, 9, 99, 1 << 30} {
+		for f := 0; f < 4; f++ {
+			func() {
+				defer func() {
+					if recover() != nil {
+						panics = true
+					}
+				}()
+				candidateRIB(vfEnumProbe(f, v))
+			}()
+		}
+	}
+	return panics
+}
+
+func vfEnumProbe(field int, v int32) *aftpb.Afts {
+	e := enums.OpenconfigAftTypesEncapsulationHeaderType(v)
+	switch field {
+	case 0:
+		return &aftpb.Afts{NextHop: []*aftpb.Afts_NextHopKey{{Index: 1, NextHop: &aftpb.Afts_NextHop{EncapsulateHeader: e}}}}
+	case 1:
+		return &aftpb.Afts{NextHop: []*aftpb.Afts_NextHopKey{{Index: 1, NextHop: &aftpb.Afts_NextHop{DecapsulateHeader: e}}}}
+	case 2:
+		return &aftpb.Afts{Ipv4Entry: []*aftpb.Afts_Ipv4EntryKey{{Prefix: "1.1.1.1/32", Ipv4Entry: &aftpb.Afts_Ipv4Entry{DecapsulateHeader: e}}}}
+	}
+	return &aftpb.Afts{Ipv6Entry: []*aftpb.Afts_Ipv6EntryKey{{Prefix: "2001:db8::/32", Ipv6Entry: &aftpb.Afts_Ipv6Entry{DecapsulateHeader: e}}}}
+}
+
+// vfEncapDefined: the numbers OpenconfigAftTypesEncapsulationHeaderType defines (0 = unset .. 8).
+func vfEncapDefined(v int32) bool { return vfAnd(v >= 0, v <= 8) }
+
+// vfModelUndefinedEnum: what the real pipeline does with an undefined enum number (calibrated).
+func vfModelUndefinedEnum() error {
+	if vfCalib("undefined-enum-panics") {
+		panic("runtime error: invalid memory address or nil pointer dereference (protomap: enum value without descriptor)")
+	}
+	return errors.New("undefined enum number")
 }
 
 // vfMergeBytes: ygot merges a slice leaf by appending the source elements that the destination lacks.
@@ -81,6 +126,28 @@ func vfModelCandidateRIB(a *aftpb.Afts) (*aft.RIB, error) {
 	nr := &aft.RIB{Afts: &aft.Afts{}}
 	if len(a.MacEntry) != 0 || len(a.PolicyForwardingEntry) != 0 {
 		vfModelUnsupported("mac/pbr entries")
+	}
+	// the real pipeline first converts the whole message to paths (protomap.PathsFromProto), which
+	// resolves every populated enum field to its name, and validates afterwards
+	for _, e := range a.Ipv4Entry {
+		if e != nil && e.Ipv4Entry != nil && !vfEncapDefined(int32(e.Ipv4Entry.DecapsulateHeader)) {
+			return nil, vfModelUndefinedEnum()
+		}
+	}
+	for _, e := range a.Ipv6Entry {
+		if e != nil && e.Ipv6Entry != nil && !vfEncapDefined(int32(e.Ipv6Entry.DecapsulateHeader)) {
+			return nil, vfModelUndefinedEnum()
+		}
+	}
+	for _, e := range a.NextHop {
+		if e != nil && e.NextHop != nil {
+			if !vfEncapDefined(int32(e.NextHop.EncapsulateHeader)) {
+				return nil, vfModelUndefinedEnum()
+			}
+			if !vfEncapDefined(int32(e.NextHop.DecapsulateHeader)) {
+				return nil, vfModelUndefinedEnum()
+			}
+		}
 	}
 	for _, e := range a.Ipv4Entry {
 		if e == nil {
@@ -234,9 +301,15 @@ func vfModelCandidateRIB(a *aftpb.Afts) (*aft.RIB, error) {
 				b := n.PopTopLabel.Value
 				ent.PopTopLabel = &b
 			}
+			if n.EncapsulateHeader != 0 {
+				ent.EncapsulateHeader = aft.E_AftTypes_EncapsulationHeaderType(n.EncapsulateHeader)
+			}
+			if n.DecapsulateHeader != 0 {
+				ent.DecapsulateHeader = aft.E_AftTypes_EncapsulationHeaderType(n.DecapsulateHeader)
+			}
 			if n.IpAddress != nil || n.MacAddress != nil || n.InterfaceRef != nil || n.IpInIp != nil || n.Gre != nil ||
 				len(n.EncapHeader) != 0 || len(n.PushedMplsLabelStack) != 0 ||
-				n.EncapsulateHeader != 0 || n.DecapsulateHeader != 0 || n.TunnelSrcIpAddress != nil || n.VniLabel != nil {
+				n.TunnelSrcIpAddress != nil || n.VniLabel != nil {
 				vfModelUnsupported("next-hop payload field outside the model")
 			}
 		}
@@ -362,6 +435,12 @@ func vfModelMergeStructInto(dst, src ygot.GoStruct, opts ...ygot.MergeOpt) error
 				b := *v.PopTopLabel
 				cur.PopTopLabel = &b
 			}
+			if v.EncapsulateHeader != 0 {
+				cur.EncapsulateHeader = v.EncapsulateHeader
+			}
+			if v.DecapsulateHeader != 0 {
+				cur.DecapsulateHeader = v.DecapsulateHeader
+			}
 			continue
 		}
 		c, _ := ygot.DeepCopy(v)
@@ -428,6 +507,8 @@ func vfModelConcreteNextHopProto(e *aft.Afts_NextHop) (*aftpb.Afts_NextHopKey, e
 	if e.NetworkInstance != nil {
 		p.NetworkInstance = &wpb.StringValue{Value: *e.NetworkInstance}
 	}
+	p.EncapsulateHeader = enums.OpenconfigAftTypesEncapsulationHeaderType(e.EncapsulateHeader)
+	p.DecapsulateHeader = enums.OpenconfigAftTypesEncapsulationHeaderType(e.DecapsulateHeader)
 	return &aftpb.Afts_NextHopKey{Index: *e.Index, NextHop: p}, nil
 }
 
